@@ -44,6 +44,10 @@ pub fn line_reference_q(
                     .search(&Input::new(input).span(l.start..l.content_end))
                     .is_some();
                 quirk = alone != in_ctx;
+                if !quirk {
+                    // the match positions can be context dependent too
+                    quirk = spans_in_context(orc, input, l.start, l.content_end) != spans;
+                }
             }
         }
         out.push(json!({
@@ -57,6 +61,49 @@ pub fn line_reference_q(
         }));
     }
     Value::Array(out)
+}
+
+/// Like `content_spans`, but the reference regex sees the line inside the
+/// whole input (look-around context = neighbouring lines).
+pub fn spans_in_context(
+    orc: &Oracle,
+    input: &[u8],
+    start: usize,
+    content_end: usize,
+) -> Vec<(usize, usize)> {
+    let mut spans = vec![];
+    let mut segs: Vec<(usize, usize)> = vec![];
+    if orc.term == Term::Crlf {
+        let mut s = start;
+        for i in start..content_end {
+            if input[i] == b'\r' {
+                segs.push((s, i));
+                s = i + 1;
+            }
+        }
+        segs.push((s, content_end));
+    } else {
+        segs.push((start, content_end));
+    }
+    for (s, e) in segs {
+        let mut at = s;
+        let mut last_end: Option<usize> = None;
+        while at <= e {
+            match orc.re.search(&Input::new(input).span(at..e)) {
+                None => break,
+                Some(m) => {
+                    if m.is_empty() && last_end == Some(m.start()) {
+                        at = m.end() + 1;
+                        continue;
+                    }
+                    spans.push((m.start() - start, m.end() - start));
+                    last_end = Some(m.end());
+                    at = if m.is_empty() { m.end() + 1 } else { m.end() };
+                }
+            }
+        }
+    }
+    spans
 }
 
 /// Successive leftmost-first, non-overlapping matches within a line's
@@ -229,6 +276,45 @@ pub fn clicases(kind: &str, seed: u64, n: usize) -> Value {
                     "input": esc(&case.input),
                     "nlines": lines.len(),
                     "model": evs,
+                }));
+            }
+            "c09" => {
+                // like c01 but LF/CRLF only, with per-line match spans and
+                // (for a third of the cases) a -U variant with whole-input
+                // matches
+                let mut case = match c01::gen_case(&mut rng, &corpus) {
+                    Some(c) => c,
+                    None => continue,
+                };
+                if case.flags.term == Term::Nul || case.input.is_empty() || has_bom(&case.input) {
+                    continue;
+                }
+                if case.patterns.iter().any(|p| p.contains('\0')) {
+                    continue;
+                }
+                if case.input.len() > 30_000 {
+                    case.input.truncate(30_000);
+                }
+                if crate::oracle::build_matcher(&case.patterns, &case.flags).is_err() {
+                    continue;
+                }
+                let orc = match Oracle::build(&case.patterns, &case.flags) {
+                    Ok(o) => o,
+                    Err(_) => continue,
+                };
+                let uw = crate::oracle::matcher_builder(&case.flags)
+                    .verif_describe(&case.patterns)
+                    .map(|(h, _)| h.properties().look_set().contains_word_unicode())
+                    .unwrap_or(false);
+                let lines_json = line_reference_q(&orc, &case.input, case.flags.term, uw);
+                let valid_utf8 = std::str::from_utf8(&case.input).is_ok();
+                out.push(json!({
+                    "patterns": case.patterns,
+                    "flags": case.flags.to_json(),
+                    "args": case.flags.cli_args(),
+                    "input": esc(&case.input),
+                    "valid_utf8": valid_utf8,
+                    "lines": lines_json,
                 }));
             }
             "c13" => {
